@@ -44,6 +44,19 @@ func VH_C05_History() {
 		Proofs: map[string][]gcrypto.SparseSignature{"A": vhValidSigs(keys, vkit.PrecommitContent(1, commitRound, "A"), 15, 1)}})
 	verifrt.Assert(res == tmconsensus.HandleVoteProofsAccepted, "C05:setup-precommits-accepted")
 
+	// a lagging validator's authentic vote for the decided height in a LATER round than the one
+	// it was decided in, for a target the committing view has no proof for yet
+	switch verifrt.Choose("late-vote-for-a-later-round-of-the-decided-height", 3) {
+	case 1:
+		e.m.HandlePrevoteProofs(e.ctx, tmconsensus.PrevoteSparseProof{Height: 1, Round: commitRound + 1, PubKeyHash: pkh,
+			Proofs: map[string][]gcrypto.SparseSignature{"B": vhValidSigs(keys, vkit.PrevoteContent(1, commitRound+1, "B"), 8, 7)}})
+		verifrt.Reach("late-prevote-delivered")
+	case 2:
+		e.m.HandlePrecommitProofs(e.ctx, tmconsensus.PrecommitSparseProof{Height: 1, Round: commitRound + 1, PubKeyHash: pkh,
+			Proofs: map[string][]gcrypto.SparseSignature{"": vhValidSigs(keys, vkit.PrecommitContent(1, commitRound+1, ""), 8, 8)}})
+		verifrt.Reach("late-precommit-delivered")
+	}
+
 	if verifrt.Choose("restart", 2) == 1 {
 		verifrt.Assert(e.restart() == nil, "C05:setup-restart")
 		verifrt.Reach("restarted")
@@ -58,6 +71,7 @@ func VH_C05_History() {
 	verifrt.Assert(len(v.PrevCommitProof.Proofs["A"]) == n, "C05:voting-view-carries-the-commit-proof")
 	e.verifyStoredSignatures("C05", 1, 0)
 	e.verifyStoredSignatures("C05", 1, 1)
+	e.verifyStoredSignatures("C05", 1, 2)
 	e.verifyStoredSignatures("C05", 2, 0)
 	e.verifyStoredSignatures("C05", 2, 1)
 	got := e.verifyGossip("C05")
